@@ -1,5 +1,638 @@
-(* Proofs about the wire decoder model (Model/Wire.v). *)
-From Coq Require Import List NArith Bool Lia Arith.
-From Mdns Require Import Res Bytes Utf8 Rec Wire.
+(* Proofs about the wire decoder model (Model/Wire.v).
+   All statements hold for EVERY byte list (no well-formedness hypothesis) and every offset. *)
+From Coq Require Import List NArith Bool Lia Arith PeanoNat.
+From Mdns Require Import Res Bytes Utf8 Rec Wire TxtProofs.
 Import ListNotations.
 Open Scope N_scope.
+
+#[local] Arguments N.add : simpl never.
+#[local] Arguments N.sub : simpl never.
+#[local] Arguments N.mul : simpl never.
+#[local] Arguments N.eqb : simpl never.
+#[local] Arguments N.ltb : simpl never.
+#[local] Arguments N.leb : simpl never.
+#[local] Arguments N.land : simpl never.
+#[local] Arguments N.of_nat : simpl never.
+#[local] Arguments N.to_nat : simpl never.
+
+(* ---------- generic ---------- *)
+
+Lemma safe_ok {A} (a : A) : safe (Ok a).
+Proof. split; discriminate. Qed.
+
+Lemma safe_err {A} : safe (@Err A).
+Proof. split; discriminate. Qed.
+
+#[local] Hint Resolve safe_ok safe_err : core.
+
+(* ---------- one run of labels ---------- *)
+
+(* a run starting at `off` over `rest` with accumulator `acc` that stops (zero byte or
+   pointer) with accumulated name `name` and next offset `next` *)
+Definition run_ok (rest : bytes) (off : N) (acc name : bytes) (next : N) : Prop :=
+  off < next /\ next <= off + N.of_nat (length rest) /\
+  (length name + 1 <= length acc + length rest)%nat.
+
+Lemma rn_labels_spec fuel : forall rest off acc,
+  (length rest < fuel)%nat ->
+  match rn_labels fuel rest off acc with
+  | LEnd name next => run_ok rest off acc name next
+  | LPtr name next _ => run_ok rest off acc name next
+  | LErr => True
+  | LFuel => False
+  end.
+Proof.
+  induction fuel as [|f IH]; intros rest off acc Hf; [lia|].
+  destruct rest as [|l tl]; cbn [rn_labels]; [exact I|].
+  cbn [length] in Hf.
+  destruct (l =? 0) eqn:E0.
+  { unfold run_ok. cbn [length]. lia. }
+  destruct (N.land l 192 =? 0) eqn:E1.
+  - destruct (Nat.ltb (length tl) (N.to_nat l)) eqn:E2; [exact I|].
+    apply Nat.ltb_ge in E2.
+    destruct (utf8_valid (firstn (N.to_nat l) tl)); [|exact I].
+    assert (Hsk : length (skipn (N.to_nat l) tl) = (length tl - N.to_nat l)%nat)
+      by apply skipn_length.
+    assert (Hfi : length (firstn (N.to_nat l) tl) = N.to_nat l)
+      by (apply firstn_length_le; exact E2).
+    assert (Hacc : length (acc ++ firstn (N.to_nat l) tl ++ [46])
+                   = (length acc + N.to_nat l + 1)%nat).
+    { rewrite !app_length, Hfi. cbn [length]. lia. }
+    assert (Hlt : (length (skipn (N.to_nat l) tl) < f)%nat) by lia.
+    generalize (IH _ (off + 1 + l) (acc ++ firstn (N.to_nat l) tl ++ [46]) Hlt).
+    destruct (rn_labels f (skipn (N.to_nat l) tl) (off + 1 + l)
+                (acc ++ firstn (N.to_nat l) tl ++ [46])) as [name next|name next target| |];
+      unfold run_ok; cbn [length]; try tauto; rewrite Hsk, Hacc; lia.
+  - destruct (N.land l 192 =? 192); [|exact I].
+    destruct tl as [|b1 tl']; [exact I|].
+    unfold run_ok. cbn [length]. lia.
+Qed.
+
+(* item 1 *)
+Lemma rn_labels_fuel_ok fuel rest off acc :
+  (length rest < fuel)%nat -> rn_labels fuel rest off acc <> LFuel.
+Proof.
+  intros Hf Heq. pose proof (rn_labels_spec fuel rest off acc Hf) as Hs.
+  rewrite Heq in Hs. exact Hs.
+Qed.
+
+(* ---------- read_name ---------- *)
+
+Lemma read_name_from_safe jumps : forall d off limit acc ret,
+  (N.to_nat limit < jumps)%nat -> safe (read_name_from jumps d off limit acc ret).
+Proof.
+  induction jumps as [|j IH]; intros d off limit acc ret Hj; [lia|].
+  cbn [read_name_from].
+  pose proof (rn_labels_fuel_ok (S (length (skipn (N.to_nat off) d)))
+                (skipn (N.to_nat off) d) off acc (Nat.lt_succ_diag_r _)) as Hfuel.
+  destruct (rn_labels (S (length (skipn (N.to_nat off) d))) (skipn (N.to_nat off) d) off acc)
+    as [name next|name next target| |] eqn:El.
+  - apply safe_ok.
+  - destruct (limit <=? target) eqn:Elt; [apply safe_err|].
+    apply N.leb_gt in Elt. apply IH. lia.
+  - apply safe_err.
+  - congruence.
+Qed.
+
+Lemma read_name_from_ok jumps : forall d off limit acc ret nm o,
+  read_name_from jumps d off limit acc ret = Ok (nm, o) ->
+  match ret with Some r => o = r | None => off < o /\ o <= len d end /\
+  (length nm <= length acc + jumps * length d)%nat.
+Proof.
+  induction jumps as [|j IH]; intros d off limit acc ret nm o H; [discriminate|].
+  cbn [read_name_from] in H.
+  pose proof (rn_labels_spec (S (length (skipn (N.to_nat off) d)))
+                (skipn (N.to_nat off) d) off acc (Nat.lt_succ_diag_r _)) as Hs.
+  pose proof (skipn_length (N.to_nat off) d) as Hsk.
+  rewrite Nat.mul_succ_l.
+  destruct (rn_labels (S (length (skipn (N.to_nat off) d))) (skipn (N.to_nat off) d) off acc)
+    as [name next|name next target| |] eqn:El; try discriminate.
+  - injection H as Hnm Ho. subst nm. destruct Hs as (Hs1 & Hs2 & Hs3). split.
+    + destruct ret as [r|]; [symmetry; exact Ho|]. subst o. unfold len. lia.
+    + lia.
+  - destruct (limit <=? target); [discriminate|].
+    apply IH in H. destruct H as [Ho Hl]. destruct Hs as (Hs1 & Hs2 & Hs3). split.
+    + destruct ret as [r|]; [exact Ho|]. subst o. unfold len. lia.
+    + lia.
+Qed.
+
+(* item 2 *)
+Lemma read_name_safe : forall d off, safe (read_name d off).
+Proof.
+  intros d off. unfold read_name.
+  destruct (Nat.lt_ge_cases (N.to_nat off) (S (length d))) as [Hlt|Hge].
+  - apply read_name_from_safe. exact Hlt.
+  - cbn [read_name_from]. rewrite skipn_all2 by lia. cbn [length rn_labels]. apply safe_err.
+Qed.
+
+(* item 3 *)
+Lemma read_name_offset : forall d off nm o,
+  read_name d off = Ok (nm, o) -> off < o /\ o <= len d.
+Proof.
+  intros d off nm o H. unfold read_name in H. apply read_name_from_ok in H.
+  destruct H as [H _]. exact H.
+Qed.
+
+(* The explicit bound on decoded names, a polynomial in the datagram length alone. *)
+Definition name_bound (d : bytes) : nat := 2 * length d * S (length d).
+
+(* item 4 *)
+Lemma read_name_length : forall d off nm o,
+  read_name d off = Ok (nm, o) -> (length nm <= 2 * length d * S (length d))%nat.
+Proof.
+  intros d off nm o H. unfold read_name in H. apply read_name_from_ok in H.
+  destruct H as [_ H]. cbn [length] in H. nia.
+Qed.
+
+(* ---------- primitive readers ---------- *)
+
+Lemma slice_ok d off n :
+  off + n <= len d -> exists s, slice d off n = Ok s /\ length s = N.to_nat n.
+Proof.
+  intros H. unfold slice. destruct (off + n <=? len d) eqn:E; [|apply N.leb_gt in E; lia].
+  eexists; split; [reflexivity|]. apply firstn_length_le. rewrite skipn_length.
+  unfold len in H. lia.
+Qed.
+
+Lemma slice_sublist d off n s : slice d off n = Ok s -> sublist_of s d.
+Proof.
+  unfold slice. destruct (off + n <=? len d); [|discriminate].
+  intros H. injection H as Hs. subst s.
+  exists (firstn (N.to_nat off) d), (skipn (N.to_nat n) (skipn (N.to_nat off) d)).
+  rewrite firstn_skipn. symmetry. apply firstn_skipn.
+Qed.
+
+Lemma byte_at_ok d off : off < len d -> exists b, byte_at d off = Ok b.
+Proof.
+  intros H. unfold byte_at. destruct (nth_error d (N.to_nat off)) as [b|] eqn:E; [eauto|].
+  apply nth_error_None in E. unfold len in H. lia.
+Qed.
+
+Lemma u16_at_ok d off : off + 2 <= len d -> exists v, u16_at d off = Ok v.
+Proof.
+  intros H. unfold u16_at. destruct (slice_ok d off 2 H) as [s [Hs Hl]].
+  rewrite Hs. cbn [bind]. change (N.to_nat 2) with 2%nat in Hl.
+  destruct s as [|b0 [|b1 [|b2 s]]]; cbn [length] in Hl; try (exfalso; lia).
+  eexists; reflexivity.
+Qed.
+
+Lemma u32_at_ok d off : off + 4 <= len d -> exists v, u32_at d off = Ok v.
+Proof.
+  intros H. unfold u32_at. destruct (slice_ok d off 4 H) as [s [Hs Hl]].
+  rewrite Hs. cbn [bind]. change (N.to_nat 4) with 4%nat in Hl.
+  destruct s as [|b0 [|b1 [|b2 [|b3 [|b4 s]]]]]; cbn [length] in Hl; try (exfalso; lia).
+  eexists; reflexivity.
+Qed.
+
+Lemma read_u16_safe d off : off <= len d -> safe (read_u16 d off).
+Proof.
+  intros H. unfold read_u16. destruct (len d - off <? 2) eqn:E.
+  - destruct (off <=? len d) eqn:E2; [apply safe_err|apply N.leb_gt in E2; lia].
+  - apply N.ltb_ge in E. destruct (u16_at_ok d off) as [v Hv]; [lia|].
+    rewrite Hv. cbn [bind]. apply safe_ok.
+Qed.
+
+Lemma read_u16_ok d off v o : read_u16 d off = Ok (v, o) -> o = off + 2 /\ o <= len d.
+Proof.
+  unfold read_u16. intros H. destruct (len d - off <? 2) eqn:E.
+  - destruct (off <=? len d); discriminate.
+  - apply N.ltb_ge in E. destruct (u16_at d off) as [w| | |]; cbn [bind] in H; try discriminate.
+    injection H as _ Ho. lia.
+Qed.
+
+Lemma read_vec_safe d off n : safe (read_vec d off n).
+Proof.
+  unfold read_vec. destruct (len d <? off + n) eqn:E; [apply safe_err|].
+  apply N.ltb_ge in E. destruct (slice_ok d off n E) as [s [Hs _]].
+  rewrite Hs. cbn [bind]. apply safe_ok.
+Qed.
+
+Lemma read_vec_ok d off n s o :
+  read_vec d off n = Ok (s, o) -> o = off + n /\ o <= len d /\ slice d off n = Ok s.
+Proof.
+  unfold read_vec. intros H. destruct (len d <? off + n) eqn:E; [discriminate|].
+  apply N.ltb_ge in E. destruct (slice d off n) as [s'| | |]; cbn [bind] in H; try discriminate.
+  injection H as Hs Ho. subst s'. split; [lia|]. split; [lia|reflexivity].
+Qed.
+
+Lemma read_string_safe d off n : safe (read_string d off n).
+Proof.
+  unfold read_string. destruct (len d <? off + n) eqn:E; [apply safe_err|].
+  apply N.ltb_ge in E. destruct (slice_ok d off n E) as [s [Hs _]].
+  rewrite Hs. cbn [bind]. destruct (utf8_valid s); [apply safe_ok|apply safe_err].
+Qed.
+
+Lemma read_char_string_safe d off : safe (read_char_string d off).
+Proof.
+  unfold read_char_string. destruct (len d <=? off) eqn:E; [apply safe_err|].
+  apply N.leb_gt in E. destruct (byte_at_ok d off E) as [l Hl].
+  rewrite Hl. cbn [bind]. apply read_string_safe.
+Qed.
+
+Lemma read_type_bitmap_safe d off : safe (read_type_bitmap d off).
+Proof.
+  unfold read_type_bitmap. destruct (len d <? off + 2) eqn:E; [apply safe_err|].
+  apply N.ltb_ge in E.
+  destruct (byte_at_ok d off) as [b Hb]; [lia|]. rewrite Hb. cbn [bind].
+  destruct (negb (b =? 0)); [apply safe_err|].
+  destruct (byte_at_ok d (off + 1)) as [bl Hbl]; [lia|]. rewrite Hbl. cbn [bind].
+  destruct (negb ((1 <=? bl) && (bl <=? 32))); [apply safe_err|].
+  cbv zeta. destruct (len d <? off + 2 + bl) eqn:E2; [apply safe_err|].
+  apply N.ltb_ge in E2. destruct (slice_ok d (off + 2) bl E2) as [s [Hs _]].
+  rewrite Hs. cbn [bind]. apply safe_ok.
+Qed.
+
+(* ---------- resource records ---------- *)
+
+Lemma read_rdata_safe d ty off rdlen : off <= len d -> safe (read_rdata d ty off rdlen).
+Proof.
+  intros H. unfold read_rdata.
+  destruct ((ty =? TY_CNAME) || (ty =? TY_PTR)).
+  { apply bind_safe; [apply read_name_safe|]. intros [alias o] _. cbv beta iota. apply safe_ok. }
+  destruct (ty =? TY_TXT).
+  { apply bind_safe; [apply read_vec_safe|]. intros [t o] _. cbv beta iota. apply safe_ok. }
+  destruct (ty =? TY_SRV).
+  { apply bind_safe; [apply read_u16_safe; exact H|].
+    intros [p o1] H1. cbv beta iota. apply read_u16_ok in H1. destruct H1 as [_ Hl1].
+    apply bind_safe; [apply read_u16_safe; exact Hl1|].
+    intros [w o2] H2. cbv beta iota. apply read_u16_ok in H2. destruct H2 as [_ Hl2].
+    apply bind_safe; [apply read_u16_safe; exact Hl2|].
+    intros [po o3] _. cbv beta iota.
+    apply bind_safe; [apply read_name_safe|].
+    intros [h o4] _. cbv beta iota. apply safe_ok. }
+  destruct (ty =? TY_HINFO).
+  { apply bind_safe; [apply read_char_string_safe|]. intros [cpu o1] _. cbv beta iota.
+    apply bind_safe; [apply read_char_string_safe|]. intros [os o2] _. cbv beta iota.
+    apply safe_ok. }
+  destruct (ty =? TY_A).
+  { destruct (len d <? off + 4) eqn:E; [apply safe_err|]. apply N.ltb_ge in E.
+    destruct (slice_ok d off 4 E) as [s [Hs _]]. rewrite Hs. cbn [bind]. apply safe_ok. }
+  destruct (ty =? TY_AAAA).
+  { destruct (len d <? off + 16) eqn:E; [apply safe_err|]. apply N.ltb_ge in E.
+    destruct (slice_ok d off 16 E) as [s [Hs _]]. rewrite Hs. cbn [bind]. apply safe_ok. }
+  destruct (ty =? TY_NSEC).
+  { apply bind_safe; [apply read_name_safe|]. intros [nx o1] _. cbv beta iota.
+    apply bind_safe; [apply read_type_bitmap_safe|]. intros [bm o2] _. cbv beta iota.
+    apply safe_ok. }
+  apply safe_ok.
+Qed.
+
+(* item 5 *)
+Lemma read_one_rr_safe : forall d resp off, safe (read_one_rr d resp off).
+Proof.
+  intros d resp off. unfold read_one_rr.
+  pose proof (read_name_safe d off) as Hsafe.
+  destruct (read_name d off) as [[name off1]| | |] eqn:En; cbn [bind];
+    [|apply safe_err|destruct Hsafe; congruence|destruct Hsafe; congruence].
+  apply read_name_offset in En. destruct En as [Hlt Hle].
+  destruct (len d - off1 <? 10) eqn:E10.
+  { destruct (off1 <=? len d) eqn:E; [apply safe_err|apply N.leb_gt in E; lia]. }
+  apply N.ltb_ge in E10.
+  destruct (u16_at_ok d off1) as [ty Hty]; [lia|]. rewrite Hty. cbn [bind].
+  destruct (u16_at_ok d (off1 + 2)) as [cl Hcl]; [lia|]. rewrite Hcl. cbn [bind].
+  destruct (u32_at_ok d (off1 + 4)) as [ttl0 Httl]; [lia|]. rewrite Httl. cbn [bind].
+  destruct (u16_at_ok d (off1 + 8)) as [rdlen Hrd]; [lia|]. rewrite Hrd. cbn [bind].
+  cbv zeta.
+  destruct (len d <? off1 + 10 + rdlen) eqn:En2; [apply safe_err|]. apply N.ltb_ge in En2.
+  apply bind_safe.
+  { destruct (known_type ty); [apply read_rdata_safe; lia|apply safe_ok]. }
+  intros [rd off3] _. cbv beta iota.
+  destruct (off3 =? off1 + 10 + rdlen); [apply safe_ok|apply safe_err].
+Qed.
+
+(* What a successful read_one_rr did: the owner name comes from read_name at `off`, the fixed
+   part is 10 bytes, and the RDATA (if decoded) comes from read_rdata right after it. *)
+Lemma read_one_rr_inv d resp off ro o :
+  read_one_rr d resp off = Ok (ro, o) ->
+  exists name off1 rdlen,
+    read_name d off = Ok (name, off1) /\ off1 + 10 <= len d /\
+    o = off1 + 10 + rdlen /\ o <= len d /\
+    match ro with
+    | None => True
+    | Some r => r_name r = name /\
+                exists ty, read_rdata d ty (off1 + 10) rdlen = Ok (Some (r_data r), o)
+    end.
+Proof.
+  intros H. unfold read_one_rr in H.
+  destruct (read_name d off) as [[name off1]| | |] eqn:En; cbn [bind] in H; try discriminate.
+  exists name, off1.
+  destruct (len d - off1 <? 10) eqn:E10; [destruct (off1 <=? len d); discriminate|].
+  apply N.ltb_ge in E10.
+  destruct (u16_at d off1) as [ty| | |]; cbn [bind] in H; try discriminate.
+  destruct (u16_at d (off1 + 2)) as [cl| | |]; cbn [bind] in H; try discriminate.
+  destruct (u32_at d (off1 + 4)) as [ttl0| | |]; cbn [bind] in H; try discriminate.
+  destruct (u16_at d (off1 + 8)) as [rdlen| | |]; cbn [bind] in H; try discriminate.
+  cbv zeta in H. exists rdlen.
+  destruct (len d <? off1 + 10 + rdlen) eqn:En2; [discriminate|]. apply N.ltb_ge in En2.
+  apply read_name_offset in En as Hoff. destruct Hoff as [Hlt Hle].
+  destruct (known_type ty).
+  - destruct (read_rdata d ty (off1 + 10) rdlen) as [[rd off3]| | |] eqn:Erd;
+      cbn [bind] in H; try discriminate.
+    destruct (off3 =? off1 + 10 + rdlen) eqn:E3; [|discriminate].
+    apply N.eqb_eq in E3. injection H as Hro Ho. subst o off3.
+    repeat (split; [first [reflexivity|lia]|]).
+    destruct rd as [x|]; subst ro; [|exact I].
+    cbn [r_name r_data]. split; [reflexivity|]. exists ty. exact Erd.
+  - cbn [bind] in H. rewrite N.eqb_refl in H. injection H as Hro Ho. subst o ro.
+    repeat (split; [first [reflexivity|lia]|]). exact I.
+Qed.
+
+Lemma read_one_rr_offset : forall d resp off r o,
+  read_one_rr d resp off = Ok (r, o) -> off + 11 <= o /\ o <= len d.
+Proof.
+  intros d resp off r o H. apply read_one_rr_inv in H.
+  destruct H as (name & off1 & rdlen & Hn & H10 & Ho & Hle & _).
+  apply read_name_offset in Hn. lia.
+Qed.
+
+(* ---------- record lists ---------- *)
+
+(* fuel only has to exceed the number of bytes left: every record consumes at least 11 *)
+Lemma read_rrs_safe_gen fuel : forall count d resp off,
+  len d - off < N.of_nat fuel -> safe (read_rrs fuel count d resp off).
+Proof.
+  induction fuel as [|f IH]; intros count d resp off Hf; cbn [read_rrs];
+    (destruct (count =? 0); [apply safe_ok|]); [exfalso; lia|].
+  apply bind_safe; [apply read_one_rr_safe|].
+  intros [r off1] H1. cbv beta iota. apply read_one_rr_offset in H1.
+  apply bind_safe; [apply IH; lia|].
+  intros [rs off2] _. cbv beta iota. apply safe_ok.
+Qed.
+
+(* item 6 *)
+Lemma read_rrs_safe : forall d resp count off fuel,
+  (length d < fuel)%nat -> off <= len d -> safe (read_rrs fuel count d resp off).
+Proof.
+  intros d resp count off fuel Hf _. apply read_rrs_safe_gen. unfold len. lia.
+Qed.
+
+Lemma read_rrs_bound : forall fuel count d resp off rs o,
+  read_rrs fuel count d resp off = Ok (rs, o) ->
+  off <= o /\ 11 * N.of_nat (length rs) <= o - off /\ N.of_nat (length rs) <= count /\
+  (o <= len d \/ (count = 0 /\ o = off)).
+Proof.
+  induction fuel as [|f IH]; intros count d resp off rs o H; cbn [read_rrs] in H;
+    (destruct (count =? 0) eqn:Ec;
+     [apply N.eqb_eq in Ec; injection H as Hrs Ho; subst rs o; cbn [length]; lia|]);
+    [discriminate|].
+  apply N.eqb_neq in Ec.
+  destruct (read_one_rr d resp off) as [[r off1]| | |] eqn:E1; cbn [bind] in H; try discriminate.
+  destruct (read_rrs f (count - 1) d resp off1) as [[rs' off2]| | |] eqn:Er;
+    cbn [bind] in H; try discriminate.
+  injection H as Hrs Ho. subst rs o.
+  apply read_one_rr_offset in E1. apply IH in Er.
+  destruct r as [x|]; cbn [length]; lia.
+Qed.
+
+Lemma read_rrs_names : forall fuel count d resp off rs o,
+  read_rrs fuel count d resp off = Ok (rs, o) ->
+  Forall (fun r => (length (r_name r) <= name_bound d)%nat) rs.
+Proof.
+  induction fuel as [|f IH]; intros count d resp off rs o H; cbn [read_rrs] in H;
+    (destruct (count =? 0); [injection H as Hrs Ho; subst rs; constructor|]);
+    [discriminate|].
+  destruct (read_one_rr d resp off) as [[r off1]| | |] eqn:E1; cbn [bind] in H; try discriminate.
+  destruct (read_rrs f (count - 1) d resp off1) as [[rs' off2]| | |] eqn:Er;
+    cbn [bind] in H; try discriminate.
+  injection H as Hrs Ho. subst rs o. apply IH in Er.
+  destruct r as [x|]; [|exact Er]. constructor; [|exact Er].
+  apply read_one_rr_inv in E1. destruct E1 as (name & o1 & rdlen & Hn & _ & _ & _ & Hnm & _).
+  rewrite Hnm. unfold name_bound. eapply read_name_length. exact Hn.
+Qed.
+
+(* ---------- questions ---------- *)
+
+Lemma read_questions_safe_gen fuel : forall count d off,
+  len d - off < N.of_nat fuel -> safe (read_questions fuel count d off).
+Proof.
+  induction fuel as [|f IH]; intros count d off Hf; cbn [read_questions];
+    (destruct (count =? 0); [apply safe_ok|]); [exfalso; lia|].
+  pose proof (read_name_safe d off) as Hsafe.
+  destruct (read_name d off) as [[name off1]| | |] eqn:En; cbn [bind];
+    [|apply safe_err|destruct Hsafe; congruence|destruct Hsafe; congruence].
+  apply read_name_offset in En. destruct En as [Hlt Hle].
+  destruct (len d - off1 <? 4) eqn:E4.
+  { destruct (off1 <=? len d) eqn:E; [apply safe_err|apply N.leb_gt in E; lia]. }
+  apply N.ltb_ge in E4.
+  destruct (u16_at_ok d off1) as [ty Hty]; [lia|]. rewrite Hty. cbn [bind].
+  destruct (u16_at_ok d (off1 + 2)) as [cl Hcl]; [lia|]. rewrite Hcl. cbn [bind].
+  destruct (known_type ty); [|apply safe_err].
+  apply bind_safe; [apply IH; lia|].
+  intros [qs off2] _. cbv beta iota. apply safe_ok.
+Qed.
+
+(* item 7 *)
+Lemma read_questions_safe : forall d count off fuel,
+  (length d < fuel)%nat -> off <= len d -> safe (read_questions fuel count d off).
+Proof.
+  intros d count off fuel Hf _. apply read_questions_safe_gen. unfold len. lia.
+Qed.
+
+(* one successful step of read_questions, shared by the two lemmas below *)
+Lemma read_questions_step f count d off qs o :
+  read_questions (S f) count d off = Ok (qs, o) -> count <> 0 ->
+  exists name off1 ty cl qs',
+    read_name d off = Ok (name, off1) /\ off1 + 4 <= len d /\
+    read_questions f (count - 1) d (off1 + 4) = Ok (qs', o) /\
+    qs = mkQ name ty (class_of cl) (flush_of cl) :: qs'.
+Proof.
+  intros H Hc. cbn [read_questions] in H. apply N.eqb_neq in Hc. rewrite Hc in H.
+  destruct (read_name d off) as [[name off1]| | |] eqn:En; cbn [bind] in H; try discriminate.
+  destruct (len d - off1 <? 4) eqn:E4; [destruct (off1 <=? len d); discriminate|].
+  apply N.ltb_ge in E4.
+  destruct (u16_at d off1) as [ty| | |]; cbn [bind] in H; try discriminate.
+  destruct (u16_at d (off1 + 2)) as [cl| | |]; cbn [bind] in H; try discriminate.
+  destruct (known_type ty); [|discriminate].
+  destruct (read_questions f (count - 1) d (off1 + 4)) as [[qs' off2]| | |] eqn:Er;
+    cbn [bind] in H; try discriminate.
+  injection H as Hqs Ho. subst qs o.
+  apply read_name_offset in En as Hoff.
+  exists name, off1, ty, cl, qs'.
+  split; [first [reflexivity|exact En]|]. split; [lia|]. split; [exact Er|reflexivity].
+Qed.
+
+Lemma read_questions_bound : forall fuel count d off qs o,
+  read_questions fuel count d off = Ok (qs, o) ->
+  off <= o /\ 5 * N.of_nat (length qs) <= o - off /\ N.of_nat (length qs) <= count /\
+  (o <= len d \/ (count = 0 /\ o = off)).
+Proof.
+  induction fuel as [|f IH]; intros count d off qs o H.
+  - cbn [read_questions] in H. destruct (count =? 0) eqn:Ec; [|discriminate].
+    apply N.eqb_eq in Ec. injection H as Hqs Ho. subst qs o. cbn [length]. lia.
+  - destruct (N.eq_dec count 0) as [Ec|Ec].
+    + cbn [read_questions] in H. subst count. rewrite N.eqb_refl in H.
+      injection H as Hqs Ho. subst qs o. cbn [length]. lia.
+    + apply read_questions_step in H; [|exact Ec].
+      destruct H as (name & off1 & ty & cl & qs' & Hn & H4 & Hr & Hqs). subst qs.
+      apply read_name_offset in Hn. apply IH in Hr. cbn [length]. lia.
+Qed.
+
+Lemma read_questions_names : forall fuel count d off qs o,
+  read_questions fuel count d off = Ok (qs, o) ->
+  Forall (fun q => (length (q_name q) <= name_bound d)%nat) qs.
+Proof.
+  induction fuel as [|f IH]; intros count d off qs o H.
+  - cbn [read_questions] in H. destruct (count =? 0); [|discriminate].
+    injection H as Hqs Ho. subst qs. constructor.
+  - destruct (N.eq_dec count 0) as [Ec|Ec].
+    + cbn [read_questions] in H. subst count. rewrite N.eqb_refl in H.
+      injection H as Hqs Ho. subst qs. constructor.
+    + apply read_questions_step in H; [|exact Ec].
+      destruct H as (name & off1 & ty & cl & qs' & Hn & H4 & Hr & Hqs). subst qs.
+      constructor; [|eapply IH; exact Hr].
+      cbn [q_name]. unfold name_bound. eapply read_name_length. exact Hn.
+Qed.
+
+(* ---------- DnsIncoming::new ---------- *)
+
+(* item 8 *)
+Theorem decode_total : forall d, safe (decode d).
+Proof.
+  intros d. unfold decode. destruct (len d <? 12) eqn:E; [apply safe_err|].
+  apply N.ltb_ge in E.
+  destruct (u16_at_ok d 0) as [id Hid]; [lia|]. rewrite Hid. cbn [bind].
+  destruct (u16_at_ok d 2) as [flags Hfl]; [lia|]. rewrite Hfl. cbn [bind].
+  destruct (u16_at_ok d 4) as [nq Hnq]; [lia|]. rewrite Hnq. cbn [bind].
+  destruct (u16_at_ok d 6) as [nan Hnan]; [lia|]. rewrite Hnan. cbn [bind].
+  destruct (u16_at_ok d 8) as [nns Hnns]; [lia|]. rewrite Hnns. cbn [bind].
+  destruct (u16_at_ok d 10) as [nar Hnar]; [lia|]. rewrite Hnar. cbn [bind].
+  cbv zeta.
+  apply bind_safe; [apply read_questions_safe_gen; unfold len; lia|].
+  intros [qs o1] _. cbv beta iota.
+  apply bind_safe; [apply read_rrs_safe_gen; unfold len; lia|].
+  intros [an o2] _. cbv beta iota.
+  apply bind_safe; [apply read_rrs_safe_gen; unfold len; lia|].
+  intros [ns o3] _. cbv beta iota.
+  apply bind_safe; [apply read_rrs_safe_gen; unfold len; lia|].
+  intros [ar o4] _. cbv beta iota. apply safe_ok.
+Qed.
+
+(* what a successful decode did *)
+Lemma decode_inv d m :
+  decode d = Ok m ->
+  exists resp o1 o2 o3 o4,
+    12 <= len d /\
+    read_questions (S (length d)) (m_nq m) d 12 = Ok (m_questions m, o1) /\
+    read_rrs (S (length d)) (m_nan m) d resp o1 = Ok (m_answers m, o2) /\
+    read_rrs (S (length d)) (m_nns m) d resp o2 = Ok (m_authorities m, o3) /\
+    read_rrs (S (length d)) (m_nar m) d resp o3 = Ok (m_additionals m, o4).
+Proof.
+  intros H. unfold decode in H. destruct (len d <? 12) eqn:E; [discriminate|].
+  apply N.ltb_ge in E.
+  destruct (u16_at d 0) as [id| | |]; cbn [bind] in H; try discriminate.
+  destruct (u16_at d 2) as [flags| | |]; cbn [bind] in H; try discriminate.
+  destruct (u16_at d 4) as [nq| | |]; cbn [bind] in H; try discriminate.
+  destruct (u16_at d 6) as [nan| | |]; cbn [bind] in H; try discriminate.
+  destruct (u16_at d 8) as [nns| | |]; cbn [bind] in H; try discriminate.
+  destruct (u16_at d 10) as [nar| | |]; cbn [bind] in H; try discriminate.
+  cbv zeta in H.
+  remember (N.land flags 32768 =? 32768) as resp eqn:Hresp.
+  destruct (read_questions (S (length d)) nq d 12) as [[qs o1]| | |] eqn:Eq;
+    cbn [bind] in H; try discriminate.
+  destruct (read_rrs (S (length d)) nan d resp o1) as [[an o2]| | |] eqn:Ean;
+    cbn [bind] in H; try discriminate.
+  destruct (read_rrs (S (length d)) nns d resp o2) as [[ns o3]| | |] eqn:Ens;
+    cbn [bind] in H; try discriminate.
+  destruct (read_rrs (S (length d)) nar d resp o3) as [[ar o4]| | |] eqn:Ear;
+    cbn [bind] in H; try discriminate.
+  injection H as Hm. subst m. cbn [m_nq m_nan m_nns m_nar m_questions m_answers
+    m_authorities m_additionals].
+  exists resp, o1, o2, o3, o4. repeat (split; [assumption|]). assumption.
+Qed.
+
+(* item 9 *)
+Theorem decode_bounded : forall d m,
+  decode d = Ok m ->
+  12 <= len d /\
+  5 * N.of_nat (length (m_questions m)) +
+  11 * N.of_nat (length (m_answers m) + length (m_authorities m) + length (m_additionals m))
+    <= len d - 12.
+Proof.
+  intros d m H. apply decode_inv in H.
+  destruct H as (resp & o1 & o2 & o3 & o4 & H12 & Hq & Han & Hns & Har).
+  apply read_questions_bound in Hq. apply read_rrs_bound in Han.
+  apply read_rrs_bound in Hns. apply read_rrs_bound in Har.
+  split; [exact H12|]. lia.
+Qed.
+
+(* item 10 *)
+Theorem decode_names_bounded : forall d m,
+  decode d = Ok m ->
+  Forall (fun q => (length (q_name q) <= name_bound d)%nat) (m_questions m) /\
+  Forall (fun r => (length (r_name r) <= name_bound d)%nat) (m_answers m) /\
+  Forall (fun r => (length (r_name r) <= name_bound d)%nat) (m_authorities m) /\
+  Forall (fun r => (length (r_name r) <= name_bound d)%nat) (m_additionals m).
+Proof.
+  intros d m H. apply decode_inv in H.
+  destruct H as (resp & o1 & o2 & o3 & o4 & H12 & Hq & Han & Hns & Har).
+  apply read_questions_names in Hq. apply read_rrs_names in Han.
+  apply read_rrs_names in Hns. apply read_rrs_names in Har.
+  repeat split; assumption.
+Qed.
+
+(* ---------- RDATA payloads are cut out of the datagram ---------- *)
+
+Lemma read_rdata_inside d ty off rdlen x o :
+  read_rdata d ty off rdlen = Ok (Some x, o) ->
+  (forall t, x = RTxt t -> sublist_of t d) /\ (forall a, x = RAddr a -> sublist_of a d).
+Proof.
+  intros H. unfold read_rdata in H.
+  destruct ((ty =? TY_CNAME) || (ty =? TY_PTR)).
+  { destruct (read_name d off) as [[alias o']| | |]; cbn [bind] in H; try discriminate.
+    injection H as Hx Ho. subst x. split; intros y Hy; discriminate. }
+  destruct (ty =? TY_TXT).
+  { destruct (read_vec d off rdlen) as [[t o']| | |] eqn:Ev; cbn [bind] in H; try discriminate.
+    injection H as Hx Ho. subst x. apply read_vec_ok in Ev. destruct Ev as (_ & _ & Hs).
+    split; intros y Hy; [|discriminate]. injection Hy as Hy. subst y.
+    eapply slice_sublist. exact Hs. }
+  destruct (ty =? TY_SRV).
+  { destruct (read_u16 d off) as [[p o1]| | |]; cbn [bind] in H; try discriminate.
+    destruct (read_u16 d o1) as [[w o2]| | |]; cbn [bind] in H; try discriminate.
+    destruct (read_u16 d o2) as [[po o3]| | |]; cbn [bind] in H; try discriminate.
+    destruct (read_name d o3) as [[h o4]| | |]; cbn [bind] in H; try discriminate.
+    injection H as Hx Ho. subst x. split; intros y Hy; discriminate. }
+  destruct (ty =? TY_HINFO).
+  { destruct (read_char_string d off) as [[cpu o1]| | |]; cbn [bind] in H; try discriminate.
+    destruct (read_char_string d o1) as [[os o2]| | |]; cbn [bind] in H; try discriminate.
+    injection H as Hx Ho. subst x. split; intros y Hy; discriminate. }
+  destruct (ty =? TY_A).
+  { destruct (len d <? off + 4); [discriminate|].
+    destruct (slice d off 4) as [s| | |] eqn:Es; cbn [bind] in H; try discriminate.
+    injection H as Hx Ho. subst x. split; intros y Hy; [discriminate|].
+    injection Hy as Hy. subst y. eapply slice_sublist. exact Es. }
+  destruct (ty =? TY_AAAA).
+  { destruct (len d <? off + 16); [discriminate|].
+    destruct (slice d off 16) as [s| | |] eqn:Es; cbn [bind] in H; try discriminate.
+    injection H as Hx Ho. subst x. split; intros y Hy; [discriminate|].
+    injection Hy as Hy. subst y. eapply slice_sublist. exact Es. }
+  destruct (ty =? TY_NSEC).
+  { destruct (read_name d off) as [[nx o1]| | |]; cbn [bind] in H; try discriminate.
+    destruct (read_type_bitmap d o1) as [[bm o2]| | |]; cbn [bind] in H; try discriminate.
+    injection H as Hx Ho. subst x. split; intros y Hy; discriminate. }
+  discriminate.
+Qed.
+
+(* item 11 *)
+Theorem rr_data_inside : forall d resp off r o,
+  read_one_rr d resp off = Ok (Some r, o) ->
+  (forall t, r_data r = RTxt t -> sublist_of t d) /\
+  (forall a, r_data r = RAddr a -> sublist_of a d).
+Proof.
+  intros d resp off r o H. apply read_one_rr_inv in H.
+  destruct H as (name & off1 & rdlen & _ & _ & _ & _ & _ & ty & Hrd).
+  eapply read_rdata_inside. exact Hrd.
+Qed.
+
+(* convenience corollaries: starting inside the datagram, the lists end inside it *)
+Lemma read_rrs_end_inside fuel count d resp off rs o :
+  read_rrs fuel count d resp off = Ok (rs, o) -> off <= len d -> o <= len d.
+Proof. intros H Hoff. apply read_rrs_bound in H. lia. Qed.
+
+Lemma read_questions_end_inside fuel count d off qs o :
+  read_questions fuel count d off = Ok (qs, o) -> off <= len d -> o <= len d.
+Proof. intros H Hoff. apply read_questions_bound in H. lia. Qed.
+
+Print Assumptions decode_total.
+Print Assumptions decode_bounded.
+Print Assumptions decode_names_bounded.
+Print Assumptions rr_data_inside.
